@@ -400,10 +400,54 @@ def run(c):
         finally:
             for s in servers.values():
                 s.cleanup()
+        descriptor_exhaustion(c, t, rng, probe_file)
         mixed_histories(c, t, rng, valid, crashers, mutants, probe_file)
         engine_a(c, t, rng, valid, crashers, mutants)
     finally:
         t.cleanup()
+
+
+def descriptor_exhaustion(c, t, rng, probe_file):
+    """the process runs out of file descriptors (limit 40, 120 simultaneous connections): accept and open fail with
+    EMFILE for a while; once the peers have gone the server must serve again, with all its workers"""
+    c.need("descriptor exhaustion history")
+    for n in ((2, 4) if c.quick else (1, 2, 4, 8)):
+        srv = server.Server(t.root, threads=n, trace=True, nofile=40)
+        try:
+            if not srv.started:
+                c.inconc("server with a descriptor limit did not start")
+                continue
+            socks = []
+            raw = ("GET %s HTTP/1.1\r\nHost: x\r\n\r\n" % probe_file).encode()
+            for i in range(120):
+                try:
+                    s = srv.connect(timeout=1.0)
+                    socks.append(s)
+                except (OSError, socket.timeout):
+                    pass
+            time.sleep(0.2)
+            for i, s in enumerate(socks):
+                try:
+                    if i % 3 == 0:
+                        s.sendall(raw)
+                except OSError:
+                    pass
+            time.sleep(0.2)
+            for i, s in enumerate(socks):
+                try:
+                    if i % 2:
+                        server.rst_close(s)
+                    else:
+                        s.close()
+                except OSError:
+                    pass
+            quiesce(srv)
+            c.ev()
+            c.cls("descriptor-exhaustion", n)
+            c.seen("descriptor exhaustion history")
+            probe_after(c, srv, t, n, ["descriptor-exhaustion:%d-connections-limit-40" % len(socks)], probe_file)
+        finally:
+            srv.cleanup()
 
 
 def mixed_histories(c, t, rng, valid, crashers, mutants, probe_file):
